@@ -3,7 +3,7 @@
 import json, os, sys
 HERE = os.path.dirname(os.path.dirname(os.path.abspath(__file__)))
 sys.path.insert(0, HERE)
-from vf.registry import NOT_YET, NOT_APPLICABLE  # noqa
+from vf.registry import NOT_YET, NOT_APPLICABLE, ENABLED  # noqa
 
 props = [json.loads(l) for l in open(os.path.join(HERE, "properties.jsonl"))]
 checks, na = [], []
@@ -11,7 +11,7 @@ for p in props:
     pid = p["id"]
     mp = os.path.join(HERE, "checks", pid.lower() + ".meta.json")
     r = json.load(open(mp)) if os.path.exists(mp) else None
-    if r and pid not in NOT_APPLICABLE and os.path.exists(os.path.join(HERE, "checks", pid.lower() + ".py")):
+    if r and pid in ENABLED and pid not in NOT_APPLICABLE and os.path.exists(os.path.join(HERE, "checks", pid.lower() + ".py")):
         checks.append({
             "property_id": pid,
             "quick_cmd": f"./check {pid} --tier quick",
